@@ -134,7 +134,7 @@ _c03 = [("tx_input", "hash: all bytes; index: all u32", ["TransactionInput::to_b
         ("redeemer_enc", "6 tags; index, memory, steps all u64", ["Redeemer::to_bytes"]),
         ("size_bounds", "constructor input length 0..34", ["AssetName::new", "Ipv4::new", "Ipv6::new"])]
 PROPS["C03"] = dict(
-    bounds="integers (E2): BigInt / Plutus-data integer form and head width for every mathematical integer; shapes (E1): transaction input, ADA-only value (and empty bundle == absent), legacy enterprise output, certificate forms 0,1,2,4,7,8,11 (thorough: 14-18) with both credential kinds; every scalar leaf over its full range, hash bytes symbolic",
+    bounds="integers (E2): BigInt / Plutus-data integer form and head width for every mathematical integer; struct forms (E2): every serializer path of 46 certificate / governance-action / relay / native-script / witness / small struct types against a table written from the Conway CDDL (array length, discriminant, field order, null for absent optional fields), nested values opaque; shapes (E1): transaction input, ADA-only value (and empty bundle == absent), legacy enterprise output, certificate forms 0,1,2,4,7,8,11 (thorough: 14-18) with both credential kinds; every scalar leaf over its full range, hash bytes symbolic",
     assumptions=["the reference encoder (kani/src/refcbor.rs) is written from RFC 8949 and the Conway CDDL and shares no code with CSL or cbor_event",
                  "types outside the shape list (transaction body, protocol parameter updates, governance actions, metadata, Plutus data trees, blocks) and builder outputs as a whole are outside the bound"],
     # harnesses that do not finish under the memory/time caps on this machine (value_1x2, value_2x1, output_legacy_datahash, output_inline_datum,
